@@ -135,6 +135,13 @@ func checkC02(c *Ctx) (string, bool, []string) {
 		return rule, false, assume
 	}
 	if c.Replay != nil {
+		if xs, ok := c.Replay["prime"].([]interface{}); ok {
+			for _, x := range xs { // texts printed earlier in the same process
+				if st, err := influxql.ParseStatement(fmt.Sprint(x)); err == nil {
+					mon.Try(func() { _ = st.String() })
+				}
+			}
+		}
 		text := replayStr(c, "input")
 		c02One(c, text, func(why string) map[string]interface{} { return map[string]interface{}{"input": text, "why": why} }, map[string]int64{})
 		return rule, false, assume
@@ -143,6 +150,43 @@ func checkC02(c *Ctx) (string, bool, []string) {
 		return func(why string) map[string]interface{} {
 			return map[string]interface{}{"sub": sub, "input": text, "why": why}
 		}
+	}
+	// Names that differ only by a letter whose case mapping is an ASCII letter
+	// (KELVIN SIGN -> k, dotted capital I -> i, long s -> S, dotless i -> I),
+	// printed one after the other in this process, in both orders: what was
+	// printed before must not decide how a name is quoted now. Runs first and
+	// sequentially, before anything else has printed these names.
+	{
+		local := map[string]int64{}
+		subs := [][2]string{{"k", "\u212a"}, {"K", "\u212a"}, {"i", "\u0130"}, {"I", "\u0130"}, {"s", "\u017f"}, {"S", "\u017f"}, {"i", "\u0131"}, {"I", "\u0131"}}
+		bases := []string{"k", "i", "s", "kb", "ok", "is", "ski", "link", "Kb", "OK", "IS", "skI", "kelvin_k", "sum_i", "a_s", "disk", "risk", "mask", "in_k", "x_is"}
+		tmpl := func(n string) string {
+			q := influxql.QuoteIdent(n)
+			if !strings.HasPrefix(q, `"`) {
+				q = `"` + n + `"`
+			}
+			return "SELECT " + q + ", mean(" + q + ") AS " + q + " INTO " + q + "." + q + "." + q + " FROM " + q + " WHERE " + q + " = 1 GROUP BY " + q
+		}
+		for bi, base := range bases {
+			for _, sb := range subs {
+				k := strings.Index(base, sb[0])
+				if k < 0 {
+					continue
+				}
+				twin := base[:k] + sb[1] + base[k+len(sb[0]):]
+				first, second := base, twin
+				if bi%2 == 1 {
+					first, second = twin, base
+				}
+				t1, t2 := tmpl(first), tmpl(second)
+				c02One(c, t1, detFor(t1, "lookalike"), local)
+				c02One(c, t2, func(why string) map[string]interface{} {
+					return map[string]interface{}{"sub": "lookalike", "input": t2, "prime": []string{t1}, "why": why}
+				}, local)
+				local["lookalike-name-pairs"]++
+			}
+		}
+		r.MergeCounts(local)
 	}
 	type job struct{ kind, mask int }
 	var jobs []job
@@ -226,7 +270,7 @@ func checkC02(c *Ctx) (string, bool, []string) {
 				"CREATE CONTINUOUS QUERY cq ON d RESAMPLE FOR "+d+" BEGIN SELECT v INTO t FROM m END")
 		}
 	}
-	nums := []string{"3.0", "3.", "1000000000000000000000.0", "0.0000001", "100000000000000000000000.0", "0.5", ".5", "12345.678", "9223372036854775807", "9223372036854775808", "18446744073709551615", "0", "007", "-3.0", "-0.0", "-5", "-9223372036854775808", "123456789012345678.0"}
+	nums := []string{"3.0", "3.", "1000000000000000000000.0", "0.0000001", "100000000000000000000000.0", "0.5", ".5", "12345.678", "9223372036854775807", "9223372036854775808", "18446744073709551615", "0", "007", "-3.0", "-0.0", "-5", "-9223372036854775808", "123456789012345678.0", "9223372036854775808.0", "9223372036854775807.0", "-9223372036854775808.0", "9223372036854775809.0", "18446744073709551616.0", "18446744073709551615.0", "4611686018427387904.0", "9007199254740993.0", "2147483648.0", "4294967296.0", "1e19", "9.223372036854775808e18"}
 	for _, n := range nums {
 		sweeps = append(sweeps, "SELECT v FROM m WHERE x = "+n, "SELECT v * "+n+" FROM m", "SELECT mean(v) FROM m GROUP BY time(1m) fill("+n+")", "SELECT percentile(v, "+n+") FROM m LIMIT 1")
 	}
